@@ -292,7 +292,7 @@ theorem C09_writer_bytes_varlong (v : BitVec 64) : Wr.run (wVarLong v) = (Res.ok
   show (Res.ok (varLongBytes v).length, varLongBytes v) = _
   rw [varLongBytes_eq]
 
-/-- `String.WriteTo` (VarInt write, return on error, payload write) -/
+/-- `String.WriteTo` (VarInt write, return on error, payload write); any length -/
 theorem C09_writer_fault_string (s : Bytes) (k : Nat) (hk : k < (stringEnc s).1.length) :
     (wString s ⟨[], some k⟩).1 = Res.err := (exact_wString s).fault k hk
 theorem C09_writer_bytes_string (s : Bytes) (h : s.length < 2 ^ 31) :
@@ -330,7 +330,10 @@ theorem C09_exact_meaning {α} (e : Wr α) (r : Res α) (bs : Bytes) (h : Wr.Exa
     (∀ k, bs.length ≤ k → e ⟨[], some k⟩ = (r, ⟨bs, some (k - bs.length)⟩)) :=
   ⟨h.run, h.faithful, h.fault, h.enough⟩
 
-/-- `Packet.Pack`, both modes: one final write of the buffered frame -/
+/-- `Packet.Pack`, both modes: one final write of the buffered frame. NO bound on the payload size: whatever frame
+`Pack` assembles (any id, any `Data` of any length, any threshold, any pool content), a sink that accepts fewer
+bytes than that frame makes `Pack` return an error. (The 2 MiB bound of `C09_writer_bytes_pack` is needed only to
+identify the frame with the protocol's `frameOf`.) -/
 theorem C09_writer_fault_pack (Z : ZLib) (t : Int) (p : Pkt) (pool : Pool) (frame : Bytes)
     (h : pack Z t p pool = Res.ok frame) (k : Nat) (hk : k < frame.length) :
     (wPack Z t p pool ⟨[], some k⟩).1 = Res.err := (exact_wPack Z t p pool frame h).fault k hk
@@ -340,6 +343,30 @@ theorem C09_writer_bytes_pack (Z : ZLib) (H : Z.Contract) (t : Int) (id : BitVec
   (exact_wPack Z t _ pool _ (C07.C07_pack Z H t id data cap pool hsize)).run
 theorem C09_writer_faithful_pack (Z : ZLib) (t : Int) (p : Pkt) (pool : Pool) : Wr.Faithful (wPack Z t p pool) :=
   faithful_wPack Z t p pool
+
+/-- without compression the frame is explicit and there is no hypothesis at all: for EVERY packet — payloads of
+16 KiB, 64 KiB, 2 GiB alike — a sink failing at ANY offset `k` inside `Length ++ ID ++ Data` is reported.
+(A size-dependent fast path that drops the error of one of its writes contradicts this for the sizes it serves.) -/
+theorem C09_writer_fault_pack_uncompressed (Z : ZLib) (t : Int) (ht : t < 0) (p : Pkt) (pool : Pool) (k : Nat)
+    (hk : k < (varIntBytes (toVarInt (varLen p.id.toNat + p.data.length)) ++ varIntBytes p.id ++ p.data).length) :
+    (wPack Z t p pool ⟨[], some k⟩).1 = Res.err := by
+  have h : pack Z t p pool =
+      Res.ok (varIntBytes (toVarInt (varLen p.id.toNat + p.data.length)) ++ varIntBytes p.id ++ p.data) := by
+    unfold Model.pack packPlain bufReset
+    have : ¬ (0 ≤ t) := by omega
+    simp [this]
+  exact (exact_wPack Z t p pool _ h).fault k hk
+
+/-- … and a sink with room for the whole frame receives exactly `Length ++ ID ++ Data`, whatever the size -/
+theorem C09_writer_bytes_pack_uncompressed (Z : ZLib) (t : Int) (ht : t < 0) (p : Pkt) (pool : Pool) :
+    Wr.run (wPack Z t p pool) =
+      (Res.ok (), varIntBytes (toVarInt (varLen p.id.toNat + p.data.length)) ++ varIntBytes p.id ++ p.data) := by
+  have h : pack Z t p pool =
+      Res.ok (varIntBytes (toVarInt (varLen p.id.toNat + p.data.length)) ++ varIntBytes p.id ++ p.data) := by
+    unfold Model.pack packPlain bufReset
+    have : ¬ (0 ≤ t) := by omega
+    simp [this]
+  exact (exact_wPack Z t p pool _ h).run
 
 /-- `RCONConn.WritePacket`: one write of the assembled packet (its layout: C16_layout_bytes) -/
 theorem C09_writer_fault_rcon (id typ : BitVec 32) (payload : Bytes) (k : Nat) (hk : k < payload.length + 14) :
